@@ -369,7 +369,9 @@ func RunOperators(behs [][]Step, tr *Trace, env Env, sum *Summary) {
 					agentReq(refdemon.Register(id, k, refdemon.DefaultMeta(c)))
 					w.Keys[id] = k
 				case "AddLsn":
-					sync(func() { w.TS.ListenerStart(handlers.LISTENER_EXTERNAL, handlers.ExternalConfig{Name: c, Endpoint: c + "-ep"}) })
+					sync(func() {
+						w.TS.ListenerStart(handlers.LISTENER_EXTERNAL, handlers.ExternalConfig{Name: c, Endpoint: c + "-ep"})
+					})
 				case "AddLsnOp":
 					s.cl[c].Send(fmt.Sprintf(`{"Head":{"Event":%d,"User":"%s"},"Body":{"SubEvent":%d,"Info":{"Name":"%s","Protocol":"External","Endpoint":"%s-ep","VerifReq":"1"}}}`, packager.Type.Listener.Type, opUsers[c][0], packager.Type.Listener.Add, x, x))
 					if !s.waitFor(c, func(l []string) bool { return has(l, "lsnadd:"+x) }) {
